@@ -80,3 +80,20 @@ Definition len_de (ls : lenstyle) (bs : bytes) : res (N * bytes) :=
   | LTemperature =>
       if blen bs <? 3 then Err IncompleteData else Ok (N.min (blen bs) 4, bs)
   end.
+
+(* ---------- used by the statements about frames (CodecFrame.v, CodecRoundtrip.v, CanonClass.v) ---------- *)
+
+(* styles that announce (or fix) how many bytes belong to the field *)
+Definition delimiting (ls : lenstyle) : bool :=
+  match ls with LEmpty | LTemperature => false | _ => true end.
+
+(* which payload lengths a style can announce *)
+Definition len_fits (ls : lenstyle) (n : N) : bool :=
+  match ls with
+  | LEmpty => true
+  | LFixed k => n =? k                 (* exactly k: shorter payloads are left-padded and read back padded *)
+  | LTlv => n <=? 65535
+  | LLlv d => n <? 10 ^ d
+  | LAdpu => n <=? 65535
+  | LTemperature => (3 <=? n) && (n <=? 4)
+  end.
